@@ -34,7 +34,7 @@ Section Main3.
       + intros T e a n args sh T' sub p q Hst. discriminate.
     - split.
       + apply (PS_step U sc subs vdsM supM eQ F kq tn decls rdecls k HeQ Hnr Hwfs Hc IHF).
-      + apply (FL_step U sc subs vdsM supM F kq tn decls rdecls Hc k IHP).
+      + apply (FL_step U sc subs vdsM supM F kq tn decls rdecls k IHP).
   Qed.
 
   Theorem tv3_sound k ds :
